@@ -272,3 +272,202 @@ impl StoredTree {
         ensures forall|i: int| 0 <= i < r.rem().len() ==> (#[trigger] r.rem()[i]).apath.valid(),
     { unimplemented!() }
 }
+
+// =====================================================================================================================
+// C16 "nothing is restored below a path restored as a symlink" (src/restore.rs: `symlink_apaths`,
+// `has_symlink_ancestor`).  Vocabulary, ghost history and the shims of the std items the new code uses.
+// =====================================================================================================================
+
+// `p` is a PROPER ANCESTOR DIRECTORY of the apath `a` (both as bytes): `a` continues `p` with a '/' separator,
+// i.e. p == a[..i] for a byte index i >= 1 with a[i] == '/'.  (The root "/" is never such a prefix of a valid apath:
+// a valid apath has no empty component, so a[1] != '/'.  The root is the destination directory itself, which restore
+// never creates as a link.)
+spec fn apath_above(p: Seq<u8>, a: Seq<u8>) -> bool {
+    1 <= p.len() < a.len() && a[p.len() as int] == SLASH && a.take(p.len() as int) == p
+}
+
+// some proper ancestor directory of `a` is a member of `set`
+spec fn has_ancestor_in(set: Set<Seq<u8>>, a: Seq<u8>) -> bool {
+    exists|i: int| 1 <= i < a.len() && a[i] == SLASH && set.contains(#[trigger] a.take(i))
+}
+
+// the same thing said with `apath_above` (the two forms are used on the two sides of the proof)
+proof fn lemma_has_ancestor_in_iff(set: Set<Seq<u8>>, a: Seq<u8>)
+    ensures has_ancestor_in(set, a) <==> exists|p: Seq<u8>| #[trigger] set.contains(p) && apath_above(p, a),
+{
+    if has_ancestor_in(set, a) {
+        let i = choose|i: int| 1 <= i < a.len() && a[i] == SLASH && set.contains(#[trigger] a.take(i));
+        let p = a.take(i);
+        assert(a.take(p.len() as int) == p);
+        assert(set.contains(p) && apath_above(p, a));
+    }
+    if exists|p: Seq<u8>| #[trigger] set.contains(p) && apath_above(p, a) {
+        let p = choose|p: Seq<u8>| #[trigger] set.contains(p) && apath_above(p, a);
+        let i = p.len() as int;
+        assert(set.contains(a.take(i)));
+    }
+}
+
+// GHOST HISTORY of one restore operation (R8 ghost parameter): the apaths (bytes) of the entries for which this
+// restore has so far ATTEMPTED to create a symbolic link, i.e. for which `restore_symlink` has been entered.  It is
+// written by `restore_symlink` only (one inserted ghost statement at its entry) and is independent of the executable
+// set `symlink_apaths`.  An attempt counts whatever its result: `restore_symlink` can return Err AFTER the link has
+// been created (lchown / lutimes failed), so a failed attempt may have left a link behind.
+tracked struct LinkHistory {
+    ghost links: Set<Seq<u8>>,
+}
+
+// THE PROPERTY (C16.nothing_restored_below_a_symlink), precondition of restore_dir / restore_file / restore_symlink:
+// no entry restored earlier as a symlink is a proper ancestor directory of the entry restored now -- otherwise the
+// path handed to create_dir_all / File::create / symlink would be resolved THROUGH that link, to wherever it points.
+spec fn nothing_above_is_a_link(h: LinkHistory, a: Seq<u8>) -> bool {
+    forall|p: Seq<u8>| #[trigger] h.links.contains(p) ==> !apath_above(p, a)
+}
+
+// the path `restore` derives from an apath: destination.join(&apath[1..])
+spec fn dest_path(a: Seq<u8>) -> Seq<u8> { path_join(restore_dest(), a.skip(1)) }
+
+// The guard of `restore` decides the property: the links attempted so far are all remembered in the executable
+// set, and no remembered apath is a proper ancestor of `a`.
+proof fn lemma_guard_decides(h: LinkHistory, set: Set<Seq<u8>>, a: Seq<u8>)
+    requires
+        h.links.subset_of(set),
+        !has_ancestor_in(set, a),
+    ensures
+        nothing_above_is_a_link(h, a),
+{
+    lemma_has_ancestor_in_iff(set, a);
+    assert forall|p: Seq<u8>| #[trigger] h.links.contains(p) implies !apath_above(p, a) by {
+        if apath_above(p, a) {
+            assert(set.contains(p));
+        }
+    }
+}
+
+// Sanity of the vocabulary (pure spec mathematics, no code involved): for valid apaths, "proper ancestor directory"
+// on apaths is exactly "proper ancestor directory" on the paths restore derives from them.
+spec fn path_above(p: Seq<u8>, q: Seq<u8>) -> bool {
+    p.len() < q.len() && q[p.len() as int] == SLASH && q.take(p.len() as int) == p
+}
+
+proof fn lemma_valid_second_byte(a: Seq<u8>)
+    requires valid_bytes(a), a.len() > 1,
+    ensures a[1] != SLASH,
+{
+    let r = a.skip(1);
+    if r[0] == SLASH {
+        lemma_split_leading_sep(r, SLASH);
+        let parts = split_spec(r, SLASH);
+        assert(comp_ok(parts[0]));
+    }
+}
+
+proof fn lemma_dest_path_shape(a: Seq<u8>)
+    requires valid_bytes(a),
+    ensures ({
+        let d = restore_dest();
+        let dd = if d.len() == 0 || d.last() == SLASH { d } else { d.push(SLASH) };
+        dest_path(a) == dd + a.skip(1)
+    }),
+{
+    let d = restore_dest();
+    let r = a.skip(1);
+    if a.len() > 1 { lemma_valid_second_byte(a); }
+    if !(d.len() == 0 || d.last() == SLASH) {
+        assert(d.push(SLASH) + r =~= path_join(d, r));
+    }
+}
+
+proof fn lemma_apath_above_is_path_above(p: Seq<u8>, a: Seq<u8>)
+    requires valid_bytes(p), valid_bytes(a), p.len() > 1,
+    ensures apath_above(p, a) <==> path_above(dest_path(p), dest_path(a)),
+{
+    let d = restore_dest();
+    let dd = if d.len() == 0 || d.last() == SLASH { d } else { d.push(SLASH) };
+    lemma_dest_path_shape(p);
+    lemma_dest_path_shape(a);
+    let pp = dd + p.skip(1);
+    let qq = dd + a.skip(1);
+    let n = pp.len() as int;
+    if p.len() < a.len() {
+        assert(qq[n] == a[p.len() as int]);
+        if a.take(p.len() as int) == p {
+            assert(qq.take(n) =~= pp);
+        }
+        if qq.take(n) == pp {
+            assert forall|k: int| 0 <= k < p.len() implies a.take(p.len() as int)[k] == p[k] by {
+                if k >= 1 {
+                    assert(qq.take(n)[dd.len() + k - 1] == pp[dd.len() + k - 1]);
+                }
+            }
+            assert(a.take(p.len() as int) =~= p);
+        }
+    }
+}
+
+// std::collections::HashSet<String> (R3, same-named shim; view = the set of the UTF-8 byte strings of its members).
+// ASSUMED: the documented behaviour of std's HashSet for `String` keys (Hash/Eq of a String are those of its bytes;
+// `contains` takes any borrowed form of the key: `&str` through `String: Borrow<str>`).
+#[verifier::external_body]
+#[verifier::reject_recursive_types(K)]
+struct HashSet<K> { inner: std::collections::HashSet<K> }
+
+impl HashSet<String> {
+    uninterp spec fn view(&self) -> Set<Seq<u8>>;
+
+    // HashSet::new: "Creates an empty HashSet."
+    #[verifier::external_body]
+    fn new() -> (r: Self)
+        ensures r@ == Set::<Seq<u8>>::empty(),
+    { HashSet { inner: std::collections::HashSet::new() } }
+
+    // HashSet::insert: "Adds a value to the set. Returns whether the value was newly inserted."
+    #[verifier::external_body]
+    fn insert(&mut self, k: String) -> (r: bool)
+        ensures
+            final(self)@ == old(self)@.insert(bytes_of(k@)),
+            r == !old(self)@.contains(bytes_of(k@)),
+    { self.inner.insert(k) }
+
+    // HashSet::contains: "Returns true if the set contains a value."
+    #[verifier::external_body]
+    fn contains(&self, k: &str) -> (r: bool)
+        ensures r == self@.contains(k.spec_bytes()),
+    { self.inner.contains(k) }
+}
+
+impl Apath {
+    // `ToString` through `impl Display for Apath` (src/apath.rs: `write!(fmt, "{}", self.0)`): the text of the apath.
+    // (`<Apath as Display>::fmt` is under contract in unit `leaves`.)
+    #[verifier::external_body]
+    fn to_string(&self) -> (r: String)
+        ensures r@ == self@,
+    { self.0.clone() }
+}
+
+// std: `&s[..i]` (`Index<RangeTo<usize>> for str`): the first i bytes.  std panics iff i is not on a char boundary
+// (`str::is_char_boundary`: 0, len, or a byte that is not a UTF-8 continuation byte 0b10xxxxxx); the precondition
+// states exactly that no-panic condition.
+#[verifier::external_body]
+fn shim_str_prefix(s: &str, i: usize) -> (r: &str)
+    requires
+        i <= s.spec_bytes().len(),
+        i == 0 || i == s.spec_bytes().len() || !(0x80 <= s.spec_bytes()[i as int] < 0xC0),
+    ensures r.spec_bytes() == s.spec_bytes().take(i as int),
+{ &s[..i] }
+
+// std: `&s[..=i]` (`Index<RangeToInclusive<usize>> for str`) = `&s[..i + 1]`: the first i+1 bytes; panics iff
+// i + 1 is past the end or not on a char boundary.  (Not used by the unchanged tree; present so that an edit of the
+// slice bound is judged rather than rejected.)
+#[verifier::external_body]
+fn shim_str_prefix_incl(s: &str, i: usize) -> (r: &str)
+    requires
+        i < s.spec_bytes().len(),
+        i + 1 == s.spec_bytes().len() || !(0x80 <= s.spec_bytes()[i as int + 1] < 0xC0),
+    ensures r.spec_bytes() == s.spec_bytes().take(i as int + 1),
+{ &s[..=i] }
+
+// R5: `format!("{:?}...", apath)` in an error payload; no contract mentions the text.
+#[verifier::external_body]
+fn shim_fmt_debug_then(a: &Apath, suffix: &str) -> (r: String)
+{ format!("{:?}{}", a.0, suffix) }
